@@ -62,7 +62,19 @@ package sql
 //@ func (*sqlLogPersistence).Logs
 //@   returns (logs, err)
 //@   requires p != nil && p.db != nil
-//@   modifies rows_open, n_open
+//@   modifies rows_open, n_open, rows_n, rows_pos, rows_fail, last_rows
 //@   // the row cursor is closed on every path (it holds the single connection)
 //@   ensures[C07.rows] n_open == old(n_open)
-//@   invariant#1 n_open == old(n_open) + 1 && rows_open[rows]
+//@   // a listing that succeeds is the whole result of the SELECT, row by row: nothing skipped, nothing cut short
+//@   ensures[C16.sqll,C03.logs] err == nil ==> len(logs) == rows_n[last_rows] && (forall j int :: 0 <= j && j < len(logs) ==> logs[j] == rowID(last_rows, j))
+//@   // ... hence (by the assumed meaning of the SELECT) exactly the IDs that have a checkpoint, once each
+//@   ensures[C16.sqll] err == nil ==> (forall j int :: 0 <= j && j < len(logs) ==> disk_has[logs[j]])
+//@   ensures[C16.sqll] err == nil ==> (forall k string :: disk_has[k] ==> 0 <= rowIdx(last_rows, k) && rowIdx(last_rows, k) < len(logs) && logs[rowIdx(last_rows, k)] == k)
+//@   // (no ID twice: a consequence of the row-by-row equality above and of the SELECT returning each row once)
+//@   ensures[C16.sqll] err != nil ==> logs == nil
+//@   invariant#1 n_open == old(n_open) + 1 && rows_open[rows] && last_rows == rows
+//@   invariant#1 len(logs) == rows_pos[rows] && rows_pos[rows] <= rows_n[rows] && rows_n[rows] < 1099511627776
+//@   invariant#1 forall j int :: 0 <= j && j < len(logs) ==> logs[j] == rowID(rows, j)
+//@   invariant#1 forall j int :: 0 <= j && j < rows_n[rows] ==> disk_has[rowID(rows, j)]
+//@   invariant#1 forall k string :: disk_has[k] ==> 0 <= rowIdx(rows, k) && rowIdx(rows, k) < rows_n[rows] && rowID(rows, rowIdx(rows, k)) == k
+//@   decreases#1 rows_n[rows] - rows_pos[rows] + (rows_fail[rows] ? 0 : 1)
